@@ -3,26 +3,36 @@
      pkg/scanner/parser      pureParser / lineParser NextRecord, SetStreamPos, GetStreamPos (payload = line)
      pkg/scanner/scanner.go  desc, mergeDescs, sync (scanPaths + mergeDescs + syncWorkers), persistState, loadState
      pkg/scanner/model/event.go  Event.Confirm
+     client/collector/collector.go  Run (the consumer: Write, then Confirm only after a stored write)
    Definitions only.
 
    The scanner is a state machine driven by a script of environment events; an event that is not
    enabled in the current phase is a no-op, so every list of events is a schedule.
    Granularity: one ERead is ONE bufio ReadSlice call with everything the worker does with its result
-   up to the next ReadSlice / Sleep / channel operation; the confirm hand-shake (EConfirm) and the
+   up to the next ReadSlice / Sleep / channel operation; the 1 s sleep at EOF is a phase of its own (PSleep),
+   ended by EWake, so that appends, a stop-at-EOF request or a stop can fall into it; the confirm hand-shake (EConfirm) and the
    worker's desc.setOffset after it (ESetOff) are separate steps, so a persist tick, a stop or a crash
    can fall between them. *)
 From LR Require Import lib.Base lib.Seg model.LineReader.
 
 Inductive phase :=
-| PRead                  (* in the worker loop: NextRecord / readLine, or sleeping at EOF *)
+| PRead                  (* in the worker loop: about to call NextRecord / readLine *)
+| PSleep                 (* sendOrSleep with an empty batch at EOF: utils.Sleep(ctx, 1s) *)
 | PSend (eof : bool)     (* sendOrSleep: the event is offered on the channel *)
 | PWait (eof : bool)     (* waitConfirm: blocked on confCh *)
 | PConf (eof : bool)     (* hand-shake done, desc.setOffset not yet executed *)
 | PDone.                 (* run has returned *)
 
+(* outcome of one api.Client.Write call of the collector *)
+Inductive wres :=
+| WOk        (* err == nil && wr.Err == nil: the server stored the events *)
+| WComm      (* err != nil: communication error *)
+| WSrv.      (* err == nil && wr.Err != nil: the server refused or failed the write *)
+
 Inductive ev :=
 | EAppend (bs : bytes)           (* the file at the path grows *)
 | ERead                          (* one ReadSlice turn of the worker *)
+| EWake                          (* the 1 s sleep of sendOrSleep ends; the stop-at-EOF check of worker.run follows *)
 | ETake                          (* the consumer receives the offered event *)
 | EConfirm                       (* the consumer calls Confirm() on the event it holds *)
 | ESetOff                        (* the worker executes desc.setOffset(parser.GetStreamPos()) *)
@@ -33,7 +43,11 @@ Inductive ev :=
 | EReplace (id : nat) (content : bytes)  (* the file at the path is replaced by another file (or rewritten
                                     from scratch) with identity [id] - which may be a NEW identity or, when
                                     the inode is re-used or the file was truncated in place, an old one *)
-| ESync.                         (* periodic sync: scanPaths + mergeDescs + syncWorkers *)
+| ESync                          (* periodic sync: scanPaths + mergeDescs + syncWorkers *)
+| EStopOnEof                     (* worker.stopOnEOF(): syncWorkers found that the worker's file is no longer the
+                                    file at the path (rotated away) or is gone; the worker is to drain it and return *)
+| ECollect (w : wres).           (* collector.Run with the event it holds: one cl.Write call with this outcome and
+                                    what Run does next (Confirm, or sleep 5 s and write the same event again) *)
 
 Inductive obs :=
 | OHand (recs : list bytes)      (* an event reached the consumer: its records' payloads *)
@@ -45,6 +59,7 @@ Inductive obs :=
                                     true = inside readLine with a partial line (200 ms): only the reader
                                     that loops, the code's reader never does *)
 | OExit                          (* the worker returned *)
+| OWrite (stored : bool)         (* the collector's Write call for the event it holds returned; stored: by the server *)
 | OFresh (off : nat)             (* sync started a worker (new file identity, or the previous worker had returned) at this offset *)
 | OOther (code : nat).           (* never produced by the model *)
 
@@ -62,6 +77,7 @@ Record st := mkSt {
   woff : nat;            (* Offset of the worker's own descriptor (= the map's descriptor while attached) *)
   ph : phase;
   until_eof : bool;      (* wsRunUntilEof *)
+  ue_read : bool;        (* worker.run's local untilEof: wsRunUntilEof as loaded before the last NextRecord call *)
   stopping : bool;       (* ctx.Err() != nil *)
   attached : bool;       (* the worker's descriptor is the one in the scanner's desc map (false after a
                             same-identity replacement: the old worker drains, a new one follows) *)
@@ -70,7 +86,7 @@ Record st := mkSt {
 }.
 
 Definition init (content : bytes) : st :=
-  mkSt content 0 content true 0 [] 0 [] 0 PRead false false true (mkDesc 0 0 (length content)) None.
+  mkSt content 0 content true 0 [] 0 [] 0 PRead false false false true (mkDesc 0 0 (length content)) None.
 
 (* mergeDescs for the path's descriptor: [old] from the state (None: unknown id), the scan found the
    file with identity [id] and size [size].  Returns the descriptor and whether the old one was kept. *)
@@ -85,30 +101,51 @@ Definition merge_desc (old : option desc) (id size : nat) : desc * bool :=
   | None => (mkDesc id 0 size, false)
   end.
 
+(* what differs between the code and the variants it is compared with *)
+Record variant := mkVar {
+  v_loops : bool;     (* the reader (LineReader.read_line_turn): true = readLine loops on a partial line *)
+  v_stale : bool;     (* worker.run's stop-at-EOF check: false = the code: it uses wsRunUntilEof as loaded BEFORE the
+                         read that found the EOF; true = as it was: the state is loaded after sendOrSleep, so a stop
+                         request made while the worker slept or waited for a confirmation ends it on an EOF that
+                         may be stale *)
+  v_conf_srv : bool   (* collector.Run: true = the event is confirmed although the server failed the write
+                         (the branch wr.Err != nil without its `continue`); false = the code: written again *)
+}.
+(* the code *)
+Definition code : variant := mkVar code_reader_loops false false.
+(* the code as it was before three repairs / with one seeded change (each differs from the code in one respect) *)
+Definition looping_reader : variant := mkVar true false false.       (* before e338ed8 *)
+Definition stale_eof_check : variant := mkVar false true false.      (* before the repair of worker.run's stop-at-EOF check *)
+Definition confirm_on_server_error : variant := mkVar false false true.  (* collector.Run without the `continue` *)
+
 Section Step.
-Variable lp : bool.   (* the reader (LineReader.read_line_turn): false = the code, readLine returns at EOF
-                         (code_reader_loops); true = the reader that loops on a partial line, as before the repair *)
+Variable vr : variant.
 Variable B : nat.     (* bufio buffer size: buf_size RecordMaxSizeBytes *)
 Variable rpe : nat.   (* EventMaxRecords *)
 
+(* what one NextRecord call (ERead) changes; the local untilEof was loaded just before it *)
 Definition upd_read (s : st) (rpos' : nat) (buf' : bytes) (ppos' : nat) (recs' : list bytes) (ph' : phase) : st :=
-  mkSt (file s) (fid s) (wfile s) (wsame s) rpos' buf' ppos' recs' (woff s) ph' (until_eof s) (stopping s) (attached s) (dsc s) (persisted s).
+  mkSt (file s) (fid s) (wfile s) (wsame s) rpos' buf' ppos' recs' (woff s) ph' (until_eof s) (until_eof s) (stopping s) (attached s) (dsc s) (persisted s).
 
-Definition set_ph (s : st) (p : phase) : st := upd_read s (rpos s) (buf s) (ppos s) (recs s) p.
+Definition set_ph (s : st) (p : phase) : st :=
+  mkSt (file s) (fid s) (wfile s) (wsame s) (rpos s) (buf s) (ppos s) (recs s) (woff s) p (until_eof s) (ue_read s) (stopping s) (attached s) (dsc s) (persisted s).
+
+(* `eof && untilEof` after sendOrSleep has returned nil *)
+Definition exit_check (s : st) : bool := if v_stale vr then until_eof s else ue_read s.
 
 (* a new worker on the file at the path, from the descriptor's offset *)
 Definition fresh_worker (s : st) (d : desc) (pers : option desc) : st :=
-  mkSt (file s) (fid s) (file s) true (d_off d) [] (d_off d) [] (d_off d) PRead false false true d pers.
+  mkSt (file s) (fid s) (file s) true (d_off d) [] (d_off d) [] (d_off d) PRead false false false true d pers.
 
 Definition step (s : st) (e : ev) : st * list obs :=
   match e with
   | EAppend bs =>
       (mkSt (file s ++ bs) (fid s) (if wsame s then wfile s ++ bs else wfile s) (wsame s) (rpos s) (buf s) (ppos s)
-            (recs s) (woff s) (ph s) (until_eof s) (stopping s) (attached s) (dsc s) (persisted s), [])
+            (recs s) (woff s) (ph s) (until_eof s) (ue_read s) (stopping s) (attached s) (dsc s) (persisted s), [])
   | ERead =>
       match ph s with
       | PRead =>
-          match read_line_turn lp B (buf s) (skipn (rpos s) (wfile s)) with
+          match read_line_turn (v_loops vr) B (buf s) (skipn (rpos s) (wfile s)) with
           | (n, RlLine line) =>
               (* rec != nil: recs = append(recs, rec); pos += len(line) *)
               let recs' := recs s ++ [line] in
@@ -117,13 +154,17 @@ Definition step (s : st) (e : ev) : st * list obs :=
           | (n, RlSleep b') => (upd_read s (rpos s + n) b' (ppos s) (recs s) PRead, [OSleep true])
           | (n, RlEof b') =>
               (* (nil, io.EOF): what was left of the file is now in the reader's partial line; pos unchanged *)
-              let s1 := upd_read s (rpos s + n) b' (ppos s) (recs s) PRead in
               match recs s with
-              | [] => (* sendOrSleep with no records: Sleep(1s); then the wsRunUntilEof check *)
-                  if until_eof s then (set_ph s1 PDone, [OSleep false; OExit]) else (s1, [OSleep false])
-              | _ => (set_ph s1 (PSend true), [])
+              | [] => (* sendOrSleep with no records: Sleep(1s) *)
+                  (upd_read s (rpos s + n) b' (ppos s) (recs s) PSleep, [OSleep false])
+              | _ => (upd_read s (rpos s + n) b' (ppos s) (recs s) (PSend true), [])
               end
           end
+      | _ => (s, [])
+      end
+  | EWake =>
+      match ph s with
+      | PSleep => if exit_check s then (set_ph s PDone, [OExit]) else (set_ph s PRead, [])
       | _ => (s, [])
       end
   | ETake =>
@@ -136,39 +177,52 @@ Definition step (s : st) (e : ev) : st * list obs :=
       | PWait eof => (set_ph s (PConf eof), [OConf true])
       | _ => (s, [OConf false])
       end
+  | ECollect w =>
+      match ph s with
+      | PWait eof =>
+          match w with
+          | WOk => (set_ph s (PConf eof), [OWrite true; OConf true])
+          | WComm => (s, [OWrite false])
+          | WSrv => if v_conf_srv vr then (set_ph s (PConf eof), [OWrite false; OConf true]) else (s, [OWrite false])
+          end
+      | _ => (s, [])
+      end
   | ESetOff =>
       match ph s with
       | PConf eof =>
           let d' := if attached s then mkDesc (d_id (dsc s)) (ppos s) (d_lss (dsc s)) else dsc s in
-          let p' := if eof && until_eof s then PDone else PRead in
-          (mkSt (file s) (fid s) (wfile s) (wsame s) (rpos s) (buf s) (ppos s) [] (ppos s) p' (until_eof s) (stopping s) (attached s) d' (persisted s),
-           OOffset (ppos s) :: (if eof && until_eof s then [OExit] else []))
+          let p' := if eof && exit_check s then PDone else PRead in
+          (mkSt (file s) (fid s) (wfile s) (wsame s) (rpos s) (buf s) (ppos s) [] (ppos s) p' (until_eof s) (ue_read s) (stopping s) (attached s) d' (persisted s),
+           OOffset (ppos s) :: (if eof && exit_check s then [OExit] else []))
       | _ => (s, [])
       end
   | EPersist =>
-      (mkSt (file s) (fid s) (wfile s) (wsame s) (rpos s) (buf s) (ppos s) (recs s) (woff s) (ph s) (until_eof s) (stopping s) (attached s) (dsc s) (Some (dsc s)),
+      (mkSt (file s) (fid s) (wfile s) (wsame s) (rpos s) (buf s) (ppos s) (recs s) (woff s) (ph s) (until_eof s) (ue_read s) (stopping s) (attached s) (dsc s) (Some (dsc s)),
        [OPersisted (d_off (dsc s)) (d_lss (dsc s))])
   | EStop =>
-      (mkSt (file s) (fid s) (wfile s) (wsame s) (rpos s) (buf s) (ppos s) (recs s) (woff s) (ph s) (until_eof s) true (attached s) (dsc s) (persisted s), [])
+      (mkSt (file s) (fid s) (wfile s) (wsame s) (rpos s) (buf s) (ppos s) (recs s) (woff s) (ph s) (until_eof s) (ue_read s) true (attached s) (dsc s) (persisted s), [])
   | EExit =>
       if stopping s then
         match ph s with
-        | PRead | PSend _ | PWait _ => (set_ph s PDone, [OExit])
+        | PRead | PSleep | PSend _ | PWait _ => (set_ph s PDone, [OExit])
         | _ => (s, [])
         end
       else (s, [])
+  | EStopOnEof =>
+      (mkSt (file s) (fid s) (wfile s) (wsame s) (rpos s) (buf s) (ppos s) (recs s) (woff s) (ph s) true (ue_read s) (stopping s) (attached s) (dsc s) (persisted s), [])
   | ERestart =>
       let '(d, _) := merge_desc (persisted s) (fid s) (length (file s)) in
       (fresh_worker s d (persisted s), [ORestart (d_off d)])
   | EReplace id content =>
       (mkSt content id (wfile s) false (rpos s) (buf s) (ppos s) (recs s) (woff s) (ph s)
-            (until_eof s) (stopping s) (attached s) (dsc s) (persisted s), [])
+            (until_eof s) (ue_read s) (stopping s) (attached s) (dsc s) (persisted s), [])
   | ESync =>
       let '(d, kept) := merge_desc (Some (dsc s)) (fid s) (length (file s)) in
       let stopped := match ph s with PDone => true | _ => false end in
       if negb (Nat.eqb (d_id (dsc s)) (fid s)) then
-        (* new identity: the old worker is told to stop at EOF, drains its (renamed or deleted) file on
-           its own and is forgotten here; a worker for the new file starts at offset 0 at once *)
+        (* new identity: the old worker is told to stop at EOF (EStopOnEof), drains its (renamed or deleted) file
+           on its own - as a machine of its own, see C17K.kstep - and is forgotten here; a worker for the new
+           file starts at offset 0 at once *)
         (fresh_worker s d (persisted s), [OFresh (d_off d)])
       else if stopped then
         (* same identity and the path's worker has returned: syncWorkers starts a new one on the
@@ -176,13 +230,17 @@ Definition step (s : st) (e : ev) : st * list obs :=
         (fresh_worker s d (persisted s), [OFresh (d_off d)])
       else if kept && attached s then
         (* od.setLastSeenSize(nd.LastSeenSize); same descriptor, same worker *)
-        (mkSt (file s) (fid s) (wfile s) (wsame s) (rpos s) (buf s) (ppos s) (recs s) (woff s) (ph s) (until_eof s) (stopping s) true d (persisted s), [])
+        (mkSt (file s) (fid s) (wfile s) (wsame s) (rpos s) (buf s) (ppos s) (recs s) (woff s) (ph s) (until_eof s) (ue_read s) (stopping s) true d (persisted s), [])
       else
         (* same identity but the file shrank below what was seen or read (or the worker already drains
            a replaced descriptor): the map gets the merged descriptor, the worker keeps its own and is
            told to stop at EOF; a later sync starts the successor *)
-        (mkSt (file s) (fid s) (wfile s) (wsame s) (rpos s) (buf s) (ppos s) (recs s) (woff s) (ph s) true (stopping s) false d (persisted s), [])
+        (mkSt (file s) (fid s) (wfile s) (wsame s) (rpos s) (buf s) (ppos s) (recs s) (woff s) (ph s) true (ue_read s) (stopping s) false d (persisted s), [])
   end.
+
+(* the worker seen on the file it has open (after the file at the path was replaced: the old file) *)
+Definition own_file (s : st) : st :=
+  mkSt (wfile s) (fid s) (wfile s) true (rpos s) (buf s) (ppos s) (recs s) (woff s) (ph s) (until_eof s) (ue_read s) (stopping s) (attached s) (dsc s) (persisted s).
 
 Fixpoint run (s : st) (evs : list ev) : st * list obs :=
   match evs with
@@ -233,7 +291,25 @@ Definition conf_of tr := t_conf (marks_of tr).
 Definition ends_of tr := t_ends (marks_of tr).
 Definition pers_of tr := t_pers (marks_of tr).
 
+(* how far the 'server' has stored the file, recomputed from a trace: the event a Write call carries is the one
+   handed over last, the bytes [s_a, t_hpos) of the file; s_st = n means every byte of [0, n) has been stored
+   by a Write that succeeded (a stored event extends it only if it starts inside what is stored already) *)
+Record smarks := mkS { s_m : marks; s_a : nat; s_st : nat }.
+Definition s_step (x : smarks) (o : obs) : smarks :=
+  let m' := t_step (s_m x) o in
+  match o with
+  | OHand _ => mkS m' (t_hpos (s_m x)) (s_st x)
+  | OWrite true => mkS m' (s_a x) (if Nat.leb (s_a x) (s_st x) then Nat.max (s_st x) (t_hpos (s_m x)) else s_st x)
+  | _ => mkS m' (s_a x) (s_st x)
+  end.
+Definition smarks_of (tr : list obs) : smarks := fold_left s_step tr (mkS (mkT 0 0 [0] 0 0 []) 0 0).
+Definition stored_of tr := s_st (smarks_of tr).
+
 Definition no_replace (evs : list ev) : Prop := forall b c, ~ In (EReplace b c) evs.
+(* the consumer is collector.Run: an event is confirmed only by its Write loop (ECollect), never on its own *)
+Definition collector_only (evs : list ev) : Prop := ~ In EConfirm evs.
+(* the worker is neither replaced nor restarted by the scanner *)
+Definition same_worker (evs : list ev) : Prop := ~ In ERestart evs /\ ~ In ESync evs.
 
 (* the saved descriptor that loadState + mergeDescs will still honour: one for the identity the path has now *)
 Definition eff_pers (s : st) : option desc :=
@@ -247,4 +323,5 @@ Definition eff_pers (s : st) : option desc :=
 Definition start_state (s : st) : Prop :=
   ph s = PRead /\ rpos s = 0 /\ ppos s = 0 /\ woff s = 0 /\ buf s = [] /\ recs s = [] /\
   wfile s = file s /\ wsame s = true /\ attached s = true /\
-  d_id (dsc s) = fid s /\ d_off (dsc s) = 0 /\ d_lss (dsc s) <= length (file s) /\ eff_pers s = None.
+  d_id (dsc s) = fid s /\ d_off (dsc s) = 0 /\ d_lss (dsc s) <= length (file s) /\ eff_pers s = None /\
+  ue_read s = false.
